@@ -106,4 +106,20 @@ PROPS["C17"] = dict(
           "two-thread schedule checked on a bounded exhaustive family.",
     note="warnings.warn returns normally; threading.Lock is a mutex; module names are atoms; glue functions do not touch the pending table, "
          "other modules' glue entries or the cache; thread interleavings other than the one forced schedule are not explored")
+PROPS["C04"] = dict(
+    level="other", contracts=["contracts.c04"],
+    legs=[dict(name="c04_slices", cmd="PYTHONPATH={repo} " + PY312 + " legs/c04_slices.py")], technique=TECH + "; exhaustive bounded cross-product leg",
+    explanation="Deductive part (all inputs, unbounded): try_from's f_back walk is cut by an invariant (frames == chain prefix, outer frame "
+                "not met earlier) and returns the chain up to and including outer_frame outermost-first, the whole chain when no outer is "
+                "given, [] iff outer is not on the chain; the index/slice block of unwrap_stackslice (extracted from the real AST by "
+                "statement pattern) is proved, with exact PySlice_AdjustIndices semantics for the [to:from:-1] slice and list.index, to "
+                "yield exactly the contiguous run L[idx(outer)..idx(inner)] for ALL lists of distinct frames and all anchor choices (incl. "
+                "the from_idx=None special case); the limit block keeps the frames nearest the anchor (outer only if only outer is given); "
+                "extract_since maps onto StackSlice(outer=...). Not proved: the two nested loops that BUILD the greenlet-stitched list and "
+                "get_true_caller's frame filter — these are decided by the bounded leg only: the full (outer, inner, limit) cross product at "
+                "depth 5, in three nested greenlets, from plain functions, running generators and running coroutines (1 972 cases).",
+    claim="Slicing arithmetic, f_back walk and limit trimming proved for all inputs; greenlet stitching and caller detection checked on an "
+          "exhaustive bounded cross product.",
+    note="frames of one stack are pairwise distinct; list.index on frames is identity; f_back of a frame is None or a frame; the "
+         "other-thread search loop (sys._current_frames) is not under contract")
 NOT_APPLICABLE = {}
